@@ -66,14 +66,7 @@ func VerifC15_SecretTracking() {
 	}
 	cl := &zzC15Client{state: nd.Choice("secret.state", 4)}
 	tr := &zzC15Tracker{}
-	cache := &c{
-		ctx:       context.Background(),
-		client:    cl,
-		tracker:   tr,
-		config:    &config.Config{},
-		dynconfig: dyn,
-		sslCerts:  &SSL{c: &config.Config{}},
-	}
+	cache := createCacheFacade(context.Background(), cl, &config.Config{}, tr, CreateSSLCerts(&config.Config{}), dyn, nil)
 	refs := []string{"x", "a/x", "b/x", "secret://x", "secret://b/x"}
 	want := []string{"a/x", "a/x", "b/x", "a/x", "b/x"}
 	k := nd.Choice("ref", len(refs))
